@@ -5,7 +5,7 @@ ASSUME = [
     'a measurement is (local Start=T, peer reads its clock T+d1+delta when answering, local End=T+d1+d2); delays are non-negative and the clocks do not step during one measurement',
     'grid bounds: delta in [-4s,+4s] (step 50ms quick / 10ms thorough) plus 0, +-1ns, +-2s, +-2s+-1ns; d1,d2 in {0,1ns,1ms,100ms,999ms,1s,1999ms,2s,3s}; 0..3 peers; '
     'one peer: full grid; two peers: all ordered pairs over the full delay grid x a reduced offset set of 25 values (thorough: the 50ms offset grid); three peers: all ordered triples of a smaller sub-grid (11 offsets quick / 25 thorough x 4 delays each way)',
-    'a peer that did not answer is the zero timeResult that collectTime leaves in its slot; the HTTP collection itself (getServerTime/collectTime) is not executed',
+    'a peer that did not answer is the zero timeResult that collectTime leaves in its slot; the grid tier does not execute the HTTP collection (getServerTime/collectTime), the collection tier does (loopback HTTPS peers)',
     'a peer is "named" by an error when the String() of its measurement occurs in the error text (peers are given distinct local start times so the strings are distinct)',
     'the election timeout of the oracle is the 2s of the property text, not the package constant',
 ]
@@ -62,6 +62,22 @@ def run(tier):
         'samples': samples[:16],
         'exhaustive': True,
     })
+    # collection tier: the exported entry points against real HTTPS peers on the loopback interface
+    rn = vlib.run_workers(binary, 'TestVerifC19Net', 4)
+    for r in rn:
+        for v in r.get('violations') or []:
+            if v['sig'] in bysig:
+                bysig[v['sig']]['count'] += v.get('count', 1)
+            else:
+                bysig[v['sig']] = v
+    outcomes = {}
+    for r in rn:
+        for k, c in (r.get('outcomes') or {}).items():
+            outcomes[k] = outcomes.get(k, 0) + c
+    cov['collection_tier'] = {'cases': sum(r['cases'] for r in rn), 'refused': sum(r['refused'] for r in rn), 'accepted': sum(r['accepted'] for r in rn),
+                              'refusals_of_an_all_good_network': sum(r['refusals_of_an_all_good_network'] for r in rn), 'outcomes': outcomes,
+                              'samples': sum([r.get('samples') or [] for r in rn], [])[:3]}
+    cov['evaluations'] += cov['collection_tier']['cases']
     vlib.finish('C19', tier, 'exploration', cov, list(bysig.values()), t0, assumptions=ASSUME)
 
 
@@ -81,4 +97,4 @@ MANIFEST = dict(engine='grid', level='exploration',
        'that is off by 2s or more, at least one peer, and never a silent one; the verdict over several peers must be the combination of the verdicts for each peer alone (silent peers change nothing) '
        'and list exactly the peers refused alone; with the safeguard disabled the result is always nil.',
   note='Refusals of peers that are in fact within 2s are allowed and only counted (the bound of the code, |Result-Start| + round trip, is more conservative than what the measurement proves). '
-       'Acceptance of the trivially synchronous case is a non-vacuity counter. The network collection (collectTime, health.GetServerStatus) is outside the check.')
+       'Acceptance of the trivially synchronous case is a non-vacuity counter. The network collection is covered by a second tier: SynchronizedWithNetwork / SynchronizedWithMasterAndNetwork against real HTTPS peers on the loopback interface, all tuples of 1-3 peers over {in sync, 1h ahead, 1h behind, silent} x flag; only "joins although an answering peer is one hour off" and "refuses although disabled" are oracles there.')
